@@ -376,10 +376,25 @@ class Hugr(Mapping[Node, NodeData], Generic[OpVarCov]):
             sub_offset = next(
                 i for i, inp in enumerate(self.linked_ports(src)) if inp == dst
             )
-            self._links.delete_left(_SubPort(src, sub_offset))
         except StopIteration:
             return
-        # TODO make sure sub-offset is handled correctly
+        src_sub = _SubPort(src, sub_offset)
+        dst_sub = self._links.fwd[src_sub]
+        self._links.delete_left(src_sub)
+        # keep the sub-offsets of both ports contiguous, otherwise the links
+        # stored after the deleted one become unreachable
+        nxt = src_sub.next_sub_offset()
+        while nxt in self._links.fwd:
+            other = self._links.fwd[nxt]
+            self._links.delete_left(nxt)
+            self._links.insert_left(src_sub, other)
+            src_sub, nxt = nxt, nxt.next_sub_offset()
+        nxt_dst = dst_sub.next_sub_offset()
+        while nxt_dst in self._links.bck:
+            other_src = self._links.bck[nxt_dst]
+            self._links.delete_right(nxt_dst)
+            self._links.insert_left(other_src, dst_sub)
+            dst_sub, nxt_dst = nxt_dst, nxt_dst.next_sub_offset()
 
     def root_op(self) -> OpVarCov:
         """The operation of the root node.
